@@ -76,6 +76,10 @@ def NoDupFrom (prev : Nat) : List Nat → Prop
   | [] => True
   | a :: rest => (prev = 0 ∨ a ≠ prev) ∧ NoDupFrom a rest
 
+instance decNoDupFrom : (prev : Nat) → (l : List Nat) → Decidable (NoDupFrom prev l)
+  | _, [] => isTrue trivial
+  | _, a :: rest => @instDecidableAnd _ _ inferInstance (decNoDupFrom a rest)
+
 /-- at most one RPU per access unit implies it -/
 theorem noDupFrom_of_pairwise (prev : Nat) (l : List Nat) (hp : l.Pairwise (· ≠ ·))
     (h0 : prev = 0 ∨ ∀ a ∈ l, a ≠ prev) : NoDupFrom prev l := by
